@@ -170,6 +170,20 @@ def run(ck):
     ck.require_fact("K1.rock-read-needs-slice", ck.flow(rd), ev_call({"DiskFile::read"}), no_slice, False, "theFile->read()", why="(a read beyond the entry's last slice would be issued)")
     ck.require_response("K1.rock-read-needs-slice", rd, no_slice, True, ev_call("Rock::IoState::callReaderBack"), "callReaderBack()", term_kinds=("IfStmt",),
                         why="(a read past the last slice would neither be issued nor answered)")
+    ck.rule("K1b Rock::IoState::read_: theFile->read() is issued only with the requested offset inside the current slice, i.e. with "
+            "coreOff >= objOffset + currentReadableSlice().size established false *after* the last change of objOffset/sidCurrent (the slot walk must run until the "
+            "slice containing coreOff is reached, however many slots a read skips: a reader that continues mid-chain after an aborted hit skips several)")
+    pcore = rd.params[2]["d"] if len(rd.params) > 2 else "?"
+    within = E.m_cmp("<", E.m_is_ref(pcore), E.M(lambda t: "Rock::IoState::objOffset" in E.mentions(t) and "Rock::IoState::currentReadableSlice" in E.mentions(t), "objOffset + slice size"))
+    ck.need(ck.trigger_edges(rd, within, True), "C10: Rock::IoState::read_ no longer compares coreOff with objOffset + slice size")
+    kfl2 = ck.flow(rd, prune_fields=True, track_atoms={"slice": no_slice, "within": within})
+    for st in ck.sites(kfl2, ev_call({"DiskFile::read"}), "theFile->read()", 1):
+        if st.tracked("within") is True:
+            ck.ok("K1b.rock-read-in-current-slice", st.where(), "read_: the slot walk ended with coreOff inside the current slice on this path")
+        else:
+            ck.violation("K1b.rock-read-in-current-slice", "K1b|Rock::IoState::read_|read-outside-current-slice", st.where(),
+                         "Rock::IoState::read_ can issue theFile->read() on a path where `coreOff >= objOffset + currentReadableSlice().size` was not established false "
+                         "after the last slot step (bytes of a different slot would be read and served as this part of the object)", kfl2.witness(st))
     # ------------------------------------------------------------------ U: a failed ufs-family disk write must end the swapout with an error
     ck.rule("U1 ERROR DISCIPLINE (ufs/aufs/diskd swap-out): Fs::Ufs::UFSStoreState::closeCompleted reports DISK_OK only with theFile->error() false, and "
             "UFSStoreState::writeCompleted either tests the error status it is handed, or every DiskFile implementation used with it (BlockingFile, DiskThreadsDiskFile, "
